@@ -66,6 +66,20 @@ EXP void verif_heartbeat(struct reb_simulation* r){
     if (r->steps_done == hb_stop_at) r->status = REB_STATUS_USER;
 }
 
+/* a heartbeat that updates the simulation in two phases (as a user heartbeat doing accretion or removing escapers does): between the phases the
+ * state is not a step-boundary state. The mass of the last particle is disturbed and put back bit for bit, with some work in between so that the
+ * scheduler gets pre-emption points inside the window. The integration loop must keep this invisible to served snapshots. */
+EXP void verif_heartbeat_twophase(struct reb_simulation* r){
+    verif_heartbeat(r);
+    const int N = r->N - r->N_var;
+    if (N < 2) return;
+    const double old = r->particles[N-1].m;
+    r->particles[N-1].m = old * 1.5 + 1e-3;
+    volatile double sink = 0.;
+    for (int i = 0; i < 64; i++){ sink += r->particles[i % N].x * 1e-300; }
+    r->particles[N-1].m = old;
+}
+
 /* counting free_particle_ap callback (C14) */
 static int free_ap_calls = 0;
 static uint32_t free_ap_last_hash = 0;
